@@ -827,6 +827,19 @@ def run(ctx):
         ctx.obligations = ["table translator"]
         # the generators need the class tables too: nothing can be searched, the broken translation is the report
         return ctx.finish(RULE, assumptions=ASSUME)
+    ctx.trusted.insert(3, "harness/props/c19_src.py: parser of the syntax trees of BaseParam.__setattr__ / __post_init__ "
+                          "(draw_params.py) into the statement language of coq/Model/DrawParamsSrc.v, regenerated on every "
+                          "run as coq/Gen/Src_drawparams.v (fail-closed); C19_setattr_is_source / C19_post_init_is_source "
+                          "prove the parsed programs, run by that language's interpreter, equal to set_attr / post_init of "
+                          "Model/DrawParams.v; the meaning the interpreter gives to the accepted Python shapes is trusted")
+    from props import c19_src
+    try:
+        changed = c19_src.generate()
+        ctx.notes.append(f"Gen/Src_drawparams.v regenerated from the source ({'changed' if changed else 'unchanged'})")
+    except Exception as e:   # SourceShapeError, SyntaxError, OSError: the model is no longer shown to be the source
+        ctx.proof_breaks.append({"theorem": "source parser:Gen/Src_drawparams.v (C19_setattr_is_source)",
+                                 "where": "harness/props/c19_src.py", "log": str(e)})
+        ctx.log(f"proof_broken theorem=C19_setattr_is_source (source parser: {e})")
     ctx.build_props()
     if ctx.tier == "thorough":
         ctx.coqchk()
